@@ -144,8 +144,7 @@ pub fn generate(opts: &Opts, sink: &mut CaseSink) {
     for i in 0..n {
         let cached_left = rng.chance(1, 2);
         let ncached = rng.range(1, 3) as usize;
-        // the known class (>= 2 loop-side replicas) is kept to a minority
-        let nloop = if i % 5 == 0 { rng.range(2, 3) as usize } else { 1 };
+        let nloop = if i % 2 == 0 { rng.range(2, 3) as usize } else { 1 };
         let rounds = rng.range(1, 4) as usize;
         let dels = cached_case(&mut rng, ncached, nloop, rounds, cached_left);
         let (nl, nr) = if cached_left { (ncached, nloop) } else { (nloop, ncached) };
@@ -165,4 +164,4 @@ pub fn generate_plain(opts: &Opts, sink: &mut CaseSink) {
     }
 }
 
-pub const RULE: &str = "cases = corpus (F10 history) + random delivery orders for the two-input Start with one cached side: 1..3 side-input replicas (empty / one / many batches), loop side with 1 replica (80%) or 2..3, 1..4 rounds, every interleaving respecting per-sender order and round structure; non-trivial: >=2 rounds and >=4 deliveries; distinct = distinct case terms";
+pub const RULE: &str = "cases = corpus (F10 history) + random delivery orders for the two-input Start with one cached side: 1..3 side-input replicas (empty / one / many batches), loop side with 1 replica (50%) or 2..3, 1..4 rounds, every interleaving respecting per-sender order and round structure; non-trivial: >=2 rounds and >=4 deliveries; distinct = distinct case terms";
